@@ -103,3 +103,48 @@ func ZZ_C20_Relay() {
 		}
 	}
 }
+
+// ZZ_C20_RelayPaging: the main loop's relayMinterEvents called repeatedly (as main does) while the connector is more
+// than a page (100 blocks) behind: after every pass the cursor is consistent with the blocks at or below it, and at
+// the tip every bridge event has been claimed once, numbered in history order.
+func ZZ_C20_RelayPaging() {
+	gap, tail := minter.ZZGapChoice()
+	s := minter.ZZBuildScriptGap(2, 1, 3, gap, tail)
+	start := context.ZZCursor{Block: s.First, EventNonce: 1 + vrt.Uint64Below("start.eventNonce", 1<<56),
+		BatchNonce: vrt.Uint64Below("start.batchNonce", 1<<56), ValsetNonce: vrt.Uint64Below("start.valsetNonce", 1<<56)}
+	path := minter.ZZStatusPath()
+	if !vrt.Symbolic() {
+		defer os.RemoveAll(filepath.Dir(path))
+	}
+	orc := sdk.AccAddress(append(make([]byte, 19), 7))
+	ctx := context.Context{MinterMultisigAddr: minter.ZZMultisig, MinterClient: s.Client(), Logger: log.NewNopLogger(),
+		TxCommitter: tx_committer.ZZNewServer(!vrt.Symbolic()), OrcAddress: orc}
+	ctx.LoadStatus(path, config.MinterConfig{StartBlock: start.Block, StartEventNonce: start.EventNonce, StartBatchNonce: start.BatchNonce, StartValsetNonce: start.ValsetNonce})
+	for pass := 0; pass < 6 && ctx.ZZCursor().Block < s.Latest(); pass++ {
+		before := ctx.ZZCursor().Block
+		ctx = relayMinterEvents(ctx)
+		got := ctx.ZZCursor()
+		vrt.Assert("c20.paging.relay.progress", got.Block > before && got.Block <= s.Latest())
+		if got.Block <= before || got.Block > s.Latest() {
+			return
+		}
+		vrt.Check("c20.paging.relay.cursor-consistent-after-every-pass", got == s.Expect(start, got.Block))
+		vrt.Check("c20.paging.relay.claims-so-far", len(tx_committer.ZZMsgs) == len(s.Events(got.Block)))
+	}
+	vrt.Assert("c20.paging.relay.reaches-the-tip", ctx.ZZCursor().Block == s.Latest())
+	vrt.Reach("c20.paging.relay.tip")
+	evs := s.Events(s.Latest())
+	msgs := tx_committer.ZZMsgs
+	if len(msgs) != len(evs) {
+		return
+	}
+	for i := range evs {
+		m, ok := msgs[i].(*types.MsgSubmitExternalEvent)
+		if !ok {
+			vrt.Check("c20.paging.relay.nonce-in-history-order", false)
+			return
+		}
+		ev, err := types.UnpackEvent(m.Event)
+		vrt.Check("c20.paging.relay.nonce-in-history-order", err == nil && ev.GetEventNonce() == start.EventNonce+uint64(i) && ev.GetExternalHeight() == evs[i].Height)
+	}
+}
